@@ -96,4 +96,7 @@ B6 == /\ pc["b"] = "B6"
 Next == A1 \/ A2 \/ A3 \/ A4 \/ (\E t \in {"b", "c"} : CC1(t) \/ CC2(t) \/ CC3(t)) \/ B4 \/ B5 \/ B6
 Spec == Init /\ [][Next]_vars
 Safe == err = "ok"
+\* checked separately, so that a use after free found first does not hide a race (and vice versa)
+SafeUaf == err \notin {"uaf-inc", "uaf-dec", "uaf-deref", "debt-overwritten"}
+SafeRace == err \notin {"race-read-init", "race-destroy-init", "race-destroy-read"}
 ====
